@@ -9,7 +9,7 @@ def expand_stage(seed, tier):
         b = stages.behav_stage(seed, tier)
         c = C.Corpus(seed, tier).build()
         k = 24 if tier == "thorough" else 6
-        r = expand.run(c, tier, stages.WORK, k)
+        r = expand.run(c, tier, stages.WORK, k, exclude={m['sid'] for m in b['compile_fail']})
         by = {s.sid: s for s in c.subjects}
         sdiffs = []
         checked = 0
